@@ -53,14 +53,18 @@ CLAIMED = {
    note="Trusted: as C06; the setter ordering rules and zck_validate_lead are modelled and corresponded, the validate-then-open equivalence is not a theorem.",
    technique="Lean 4 proof (case analysis over byte ranges, induction over digit pairs, iff over the monadic lead parser) + differential correspondence"),
  'C13': dict(
-   text="Machine-checked proof (Lean 4) about the model of read_lead/read_preface/index_read/read_sig: on success the reported count equals "
-        "the number of chunks and is >= 1, chunk numbers and start offsets are exact running sums, header+data length and every size fit "
-        "ssize_t, int-sized fields that do not fit are rejected, and no read leaves the header buffer. Equality of the full report with an "
-        "independent reference parser (Lean, from zchunk_format.txt) is evaluated on the implementation's output for every generated header.",
-   design_ref="DESIGN.md section 7 C13",
-   note="Partial: 'report = reference parser' is a checked predicate on explored inputs (valid and re-sealed mutant headers), not a theorem; "
-        "the theorems cover offsets/count/overflow-rejection/bounds of the model. Model tied to code by correspondence only.",
-   technique="Lean 4 proof (induction over the index-entry loop, invariants on running sums) + differential correspondence against an independent Lean reference parser"),
+   text="Machine-checked proof (Lean 4) about the model of read_lead/read_header_from_file/read_preface/index_read/read_sig: whatever the "
+        "model of zck_init_read accepts, the INDEPENDENT reference parser (Format.parse, written from zchunk_format.txt) accepts too, with "
+        "exactly the same report — flags, checksum types, lead / header / data lengths, header and data checksums, chunk count and every "
+        "chunk's number, checksums, stored size, uncompressed size and start offset (openFile_parse, Props/C13Parse.lean; hence whatever "
+        "the reference parser rejects is rejected). In addition: the reported count equals the number of chunks and is >= 1, numbers and "
+        "start offsets are exact running sums, header+data length and every size fit ssize_t, int-sized fields that do not fit are rejected, "
+        "and no read leaves the header buffer. The implementation is tied to the model by OPEN/report runs on generated and re-sealed "
+        "mutant headers, judged against the reference parser.",
+   design_ref="DESIGN.md section 7a (C13) and section 7 C13",
+   note="openFile_parse holds for files shorter than 2^63 bytes (explicit hypothesis). The converse (the C reader accepts everything the "
+        "reference parser accepts) is not claimed by the property and not proved. Model tied to code by correspondence only.",
+   technique="Lean 4 proof (refinement of the position-based parser model to the list-based reference parser: compressed integers depend only on the bytes up to the terminator; induction over the optional-element and index-entry loops) + differential correspondence against that reference parser"),
  'C15': dict(
    text="Machine-checked proof (Lean 4), for an arbitrary codec and hash function: in the model of comp_read / comp_end_dchunk / import_dict, "
         "for every file whose chunks are decoded as a unit, every reader state satisfying the invariant and EVERY sequence of read buffer "
@@ -85,8 +89,9 @@ CLAIMED = {
    design_ref="DESIGN.md section 7a (reader round trip) and section 7 C02",
    note="Hypotheses of stream_decodes, all explicit: start offsets are running sums (proved for every header the parser model accepts, C13 "
         "open_sound); the two points where the reference decoder is stricter than the reader (checksum field of an EMPTY dictionary entry all "
-        "zeros; declared length 0 implies no stored bytes) and digest sizes as the format gives them. unzck's glue and the header parse "
-        "(Header = Format.parse) are corresponded, not proved.",
+        "zeros; declared length 0 implies no stored bytes) and digest sizes as the format gives them. With C13's openFile_parse the whole "
+        "path is one statement from the bytes of the file: open_read_decodes (Props/C02Full.lean): model open + reads + close succeed => "
+        "Format.decodeAny f = the bytes handed out. unzck's glue is corresponded, not proved.",
    technique="Lean 4 proof (loop invariant of the reader as a step machine, induction over iterations / calls / call sequences, refinement to the independent reference decoder) + differential correspondence against that decoder"),
  'C14': dict(
    text="Proof (Lean 4) on the model of zck_get_chunk_data / zck_get_chunk_comp_data: once the dictionary is loaded (or absent) a request's "
